@@ -47,14 +47,27 @@ def make_payload(mode, n, pad):
     """Returns (argument for write(), item a reader must get back, raw bytes on disk)."""
     if mode == 'txt':
         s = f'r{n:05}' + 'x' * pad
+        if n % 7 == 3:
+            # characters str.splitlines() treats as line boundaries but which are ordinary content of a '\n'-terminated record
+            s += ('\r', '\x0b', '\x0c', '\x1c', '\x1e', '\x85', '\u2028', '\u2029')[(n // 7) % 8] + 'q'
         return s, s, s.encode() + b'\n'
     if mode == 'binl':
         b = f'r{n:05}'.encode() + b'y' * pad
+        if n % 5 == 1:
+            return bytearray(b), b, b + b'\n'      # the other bytes type write() accepts for a single 'binl' record
         return b, b, b + b'\n'
     if mode == 'json':
         o = {'n': n, 'p': 'z' * pad}
         return o, o, json.dumps(o, separators=(',', ':')).encode() + b'\n'
     b = f'<{n:05}'.encode() + b'.' * pad + b'>'
+    if n % 5 == 2:
+        # "data must have a buffer interface": a buffer whose items are wider than one byte (len() != number of bytes)
+        import array
+        if len(b) % 2:
+            b = b[:-1] + b'.>'
+        return array.array('H', b), b, b
+    if n % 5 == 4:
+        return bytearray(b), b, b
     return b, b, b
 
 
